@@ -24,7 +24,7 @@ verus! {
 //@struct gneiss-mqtt/src/mqtt/mod.rs PingrespPacket
 //@struct gneiss-mqtt/src/mqtt/mod.rs PubackPacket defaultspec
 //@struct gneiss-mqtt/src/mqtt/mod.rs PubcompPacket defaultspec
-//@struct gneiss-mqtt/src/mqtt/mod.rs PublishPacket clonespec
+//@struct gneiss-mqtt/src/mqtt/mod.rs PublishPacket clonespec defaultspec
 //@struct gneiss-mqtt/src/mqtt/mod.rs PubrecPacket defaultspec
 //@struct gneiss-mqtt/src/mqtt/mod.rs PubrelPacket defaultspec
 //@struct gneiss-mqtt/src/mqtt/mod.rs SubackPacket
